@@ -98,6 +98,91 @@ fn toks(s: &[f64; 7]) -> Value {
     json!(s.iter().map(|x| fhex(*x)).collect::<Vec<_>>())
 }
 
+fn le8(x: u64) -> Vec<u8> {
+    x.to_le_bytes().to_vec()
+}
+
+/// independent v4 encoder: deltas of the sorted entries, each in `w` bits, most significant bit first
+pub fn ref_v4(entries: &[u64], theta: u64, sh: u16) -> Vec<u8> {
+    let est = theta < MAX_THETA;
+    let mut deltas = vec![];
+    let mut prev = 0u64;
+    let mut ored = 0u64;
+    for &e in entries {
+        deltas.push(e - prev);
+        ored |= e - prev;
+        prev = e;
+    }
+    let w = 64 - ored.leading_zeros() as usize;
+    let n = entries.len();
+    let nb = if n == 0 { 0 } else if n < 256 { 1 } else if n < 65536 { 2 } else if n < (1 << 24) { 3 } else { 4 };
+    let mut b = vec![if est { 2 } else { 1 }, 4, 3, w as u8, nb as u8, 2 | 8 | 16];
+    b.extend_from_slice(&sh.to_le_bytes());
+    if est {
+        b.extend_from_slice(&theta.to_le_bytes());
+    }
+    for i in 0..nb {
+        b.push((n >> (8 * i)) as u8);
+    }
+    let mut bits: Vec<u8> = vec![];
+    for d in deltas {
+        for i in (0..w).rev() {
+            bits.push((d >> i & 1) as u8);
+        }
+    }
+    while bits.len() % 8 != 0 {
+        bits.push(0);
+    }
+    for ch in bits.chunks(8) {
+        b.push(ch.iter().fold(0u8, |a, &x| (a << 1) | x));
+    }
+    b
+}
+
+/// images of serial versions 1, 2, 3 built from the abstract compact state
+pub fn enc_v123(ver: u8, entries: &[u64], theta: u64, empty: bool, ordered: bool, sh: u16) -> Vec<u8> {
+    let est = theta < MAX_THETA;
+    let n = entries.len();
+    let mut b = vec![];
+    match ver {
+        1 => {
+            b.extend_from_slice(&[3, 1, 3, 0, 0, 0, 0, 0]);
+            b.extend_from_slice(&(n as u32).to_le_bytes());
+            b.extend_from_slice(&[0, 0, 0, 0]);
+            b.extend_from_slice(&theta.to_le_bytes());
+        }
+        2 => {
+            let pre = if empty { 1 } else if est { 3 } else { 2 };
+            b.extend_from_slice(&[pre, 2, 3, 0, 0, 0]);
+            b.extend_from_slice(&sh.to_le_bytes());
+            if pre > 1 {
+                b.extend_from_slice(&(n as u32).to_le_bytes());
+                b.extend_from_slice(&[0, 0, 0, 0]);
+            }
+            if pre > 2 {
+                b.extend_from_slice(&theta.to_le_bytes());
+            }
+        }
+        _ => {
+            let pre = if est { 3 } else if empty || n == 1 { 1 } else { 2 };
+            let flags = 2 | 8 | (if empty { 4 } else { 0 }) | (if ordered { 16 } else { 0 });
+            b.extend_from_slice(&[pre, 3, 3, 0, 0, flags]);
+            b.extend_from_slice(&sh.to_le_bytes());
+            if pre > 1 {
+                b.extend_from_slice(&(n as u32).to_le_bytes());
+                b.extend_from_slice(&[0, 0, 0, 0]);
+            }
+            if est {
+                b.extend_from_slice(&theta.to_le_bytes());
+            }
+        }
+    }
+    for &e in entries {
+        b.extend_from_slice(&e.to_le_bytes());
+    }
+    b
+}
+
 fn cstate(c: &CompactThetaSketch, rk: &Ranks) -> Value {
     json!({"entries": c.iter().map(|h| rk.h(h)).collect::<Vec<_>>(), "theta": rk.r(c.theta64()),
            "empty": c.is_empty(), "ordered": c.is_ordered()})
@@ -186,9 +271,62 @@ pub fn run(out: &mut Shards, scn: &str, lgk: u8, rf: u8, p: f32, seed: u64, ops:
                 };
                 let cid = ncmp;
                 ncmp += 1;
+                let sh = refhash::seed_hash(seed);
+                let ents: Vec<u64> = c.iter().collect();
+                let img3 = c.serialize();
+                let img4 = c.serialize_compressed();
+                let suitable = c.is_ordered() && !ents.is_empty() && (ents.len() != 1 || c.theta64() < MAX_THETA);
+                let v4ref = !suitable || img4 == ref_v4(&ents, c.theta64(), sh);
                 out.ev(json!({"op":"TCompact","id":0,"ord":ord,"to":cid,"c":cstate(&c, &rk),
                     "tok":[toks(&seven_u(&sk)), toks(&seven_c(&c))],
+                    "eb":ents.iter().map(|&e| le8(e)).collect::<Vec<_>>(),"tb":le8(c.theta64()),"sh":sh.to_le_bytes().to_vec(),
+                    "img3":img3,"img4":img4,"v4ref":v4ref,
                     "o":obs_of(&seven_c(&c), c.is_empty(), c.num_retained())}));
+                // C13: the same compact state as an image of every serial version
+                if ents.len() <= 300 {
+                    let mut sorted = ents.clone();
+                    sorted.sort();
+                    for ver in 1..=4u8 {
+                        let (es, ordered) = if ver == 3 { (ents.clone(), c.is_ordered()) } else { (sorted.clone(), true) };
+                        let est = c.theta64() < MAX_THETA;
+                        if ver == 4 && (es.is_empty() || (es.len() == 1 && !est)) {
+                            continue; // no v4 form for empty / single-item sketches
+                        }
+                        if ver == 1 && !c.is_empty() && es.is_empty() && !est {
+                            continue;
+                        }
+                        let img = if ver == 4 { ref_v4(&es, c.theta64(), sh) } else { enc_v123(ver, &es, c.theta64(), c.is_empty(), ordered, sh) };
+                        let to = ncmp;
+                        ncmp += 1;
+                        let abs = json!({"entries": es.iter().map(|&h| rk.h(h)).collect::<Vec<_>>(), "theta": rk.r(c.theta64()),
+                            "empty": c.is_empty(), "ordered": ordered});
+                        let r = catch(std::panic::AssertUnwindSafe(|| CompactThetaSketch::deserialize_with_seed(&img, seed)));
+                        let base = json!({"op":"CLoad","to":to,"ver":ver,"abs":abs,"img":img,"mx":rk.r(MAX_THETA),"lgk":lgk,
+                            "eb":es.iter().map(|&e| le8(e)).collect::<Vec<_>>(),"tb":le8(c.theta64()),"sh":sh.to_le_bytes().to_vec()});
+                        match r {
+                            Ok(Ok(b)) => {
+                                let mut e = base;
+                                e["ok"] = json!(true);
+                                e["c"] = cstate(&b, &rk);
+                                e["o"] = obs_of(&seven_c(&b), b.is_empty(), b.num_retained());
+                                out.ev(e);
+                            }
+                            Ok(Err(err)) => {
+                                let mut e = base;
+                                e["ok"] = json!(false);
+                                e["c"] = json!({"entries":[],"theta":0,"empty":false,"ordered":false});
+                                e["o"] = json!({});
+                                e["err"] = json!(format!("{err:?}"));
+                                out.ev(e);
+                                return;
+                            }
+                            Err(p) => {
+                                out.ev(json!({"op":"Panic","in":format!("deserialize-v{ver}"),"key":p.split(": ").next().unwrap_or(""),"msg":p}));
+                                return;
+                            }
+                        }
+                    }
+                }
                 // round trips in both forms
                 for form in ["v3", "v4"] {
                     let r = catch(std::panic::AssertUnwindSafe(|| {
